@@ -210,36 +210,48 @@ InputsTruthful(s, e) ==
       <<"C03.input_is_not_the_latest_value_of_its_producer",
             \A k \in 1..Len(n.ins) : s.lw[n.ins[k]] # 0 => e.in[k].v = s.lv[n.ins[k]]>> >>, 1)
 
-OnFn(e) ==
+\* Library nodes (kinds in LibKinds) have no user code that logs what it wrote: what they wrote is learnt from the first
+\* consumer that reads them (its view of value / last-modified-time); every later reader must agree with that, and the value
+\* itself is judged by the stream comparison with Dataflow.tla.
+LibKinds == {"fdiv"}
+InferLib(s, e) ==
+    IF ~IsNode(e.id) THEN s
+    ELSE LET n == Node(e.id)
+             ks == {k \in 1..Len(n.ins) : k <= Len(e.in) /\ Node(n.ins[k]).kind \in LibKinds /\ e.in[k].ok = 1
+                                          /\ e.in[k].lmt > s.lw[n.ins[k]]}
+         IN [s EXCEPT !.lw = [p \in DOMAIN @ |-> IF \E k \in ks : n.ins[k] = p THEN e.in[CHOOSE k \in ks : n.ins[k] = p].lmt ELSE @[p]],
+                      !.lv = [p \in DOMAIN @ |-> IF \E k \in ks : n.ins[k] = p THEN e.in[CHOOSE k \in ks : n.ins[k] = p].v ELSE @[p]]]
+
+OnFnS(s, e) ==
     IF ~IsNode(e.id) THEN Fail("trace.fn_of_unknown_node")
     ELSE
     LET i == e.id
         n == Node(i)
         t == e.t
         why1 == FirstFail(<<
-          <<"C03.user_code_ran_while_node_not_started", i \in S.started>>,
-          <<"C03.user_code_ran_outside_a_cycle", S.gnow[e.g] # 0 /\ S.gnow[e.g] = t /\ S.rnow # 0>>,
-          <<"C01.user_code_ran_twice_in_one_cycle", i \notin S.fired>>,
-          <<"C01.consumer_ran_before_its_producer_had_its_turn", \A c \in Consumers(i) : c \notin S.fired>> >>, 1)
-        why2 == IF why1 # "" THEN why1 ELSE InputsTruthful(S, e)
-        anyTick == \E k \in ActiveInsS(n, S.nst[i]) : k <= Len(n.ins) /\ S.lw[n.ins[k]] = t
+          <<"C03.user_code_ran_while_node_not_started", i \in s.started>>,
+          <<"C03.user_code_ran_outside_a_cycle", s.gnow[e.g] # 0 /\ s.gnow[e.g] = t /\ s.rnow # 0>>,
+          <<"C01.user_code_ran_twice_in_one_cycle", i \notin s.fired>>,
+          <<"C01.consumer_ran_before_its_producer_had_its_turn", \A c \in Consumers(i) : c \notin s.fired>> >>, 1)
+        why2 == IF why1 # "" THEN why1 ELSE InputsTruthful(s, e)
+        anyTick == \E k \in ActiveInsS(n, s.nst[i]) : k <= Len(n.ins) /\ s.lw[n.ins[k]] = t
         why3 == IF why2 # "" THEN why2 ELSE FirstFail(<<
           <<"C03.user_code_ran_without_ticked_active_input_or_own_wakeup",
-                anyTick \/ i \in S.due \/ i \in S.stale>>,
-          <<"C03.user_code_ran_with_invalid_required_input", ReqValid(S, i)>> >>, 1)
+                anyTick \/ i \in s.due \/ i \in s.stale>>,
+          <<"C03.user_code_ran_with_invalid_required_input", ReqValid(s, i)>> >>, 1)
     IN IF why3 # "" THEN Fail(why3)
-       ELSE LET x == Expected(S, e)
+       ELSE LET x == Expected(s, e)
                 threw == "throw" \in DOMAIN e
             IN IF (e.w = 1) # x.w \/ (x.w /\ e.out # x.v)
                THEN Fail("C03.output_is_not_the_function_of_the_inputs")
                ELSE LET s0 == IF n.kind \in {"echo", "techo"}
-                                 THEN LET q1 == IF i \in S.due /\ S.fbq[i] # <<>> THEN Tail(S.fbq[i]) ELSE S.fbq[i]
-                                          q2 == IF S.lw[n.ins[1]] = t THEN Append(q1, <<t + n.k, S.lv[n.ins[1]]>>) ELSE q1
-                                      IN [S EXCEPT !.fbq[i] = q2]
-                                 ELSE S
+                                 THEN LET q1 == IF i \in s.due /\ s.fbq[i] # <<>> THEN Tail(s.fbq[i]) ELSE s.fbq[i]
+                                          q2 == IF s.lw[n.ins[1]] = t THEN Append(q1, <<t + n.k, s.lv[n.ins[1]]>>) ELSE q1
+                                      IN [s EXCEPT !.fbq[i] = q2]
+                                 ELSE s
                         s1 == [s0 EXCEPT !.fired = @ \cup {i}, !.nst[i] = x.s,
-                                        !.threw = IF threw THEN @ \cup {<<i, IF n.kind = "tdelay" THEN S.nst[i] ELSE IF n.kind = "techo" THEN S.fbq[i][1][2] ELSE e.in[1].v>>} ELSE @,
-                                        !.tagt[i] = IF n.kind \in {"delay", "tdelay"} /\ i \in S.due /\ @ = t THEN 0 ELSE @]
+                                        !.threw = IF threw THEN @ \cup {<<i, IF n.kind = "tdelay" THEN s.nst[i] ELSE IF n.kind = "techo" THEN s.fbq[i][1][2] ELSE e.in[1].v>>} ELSE @,
+                                        !.tagt[i] = IF n.kind \in {"delay", "tdelay"} /\ i \in s.due /\ @ = t THEN 0 ELSE @]
                         s2 == IF x.w THEN [s1 EXCEPT !.lw[i] = t, !.lv[i] = x.v,
                                                      !.pend = @ \cup {<<f, t + 1>> : f \in FbReaders(i)},
                                                      !.fbq = [f \in DOMAIN @ |-> IF f \in FbReaders(i)
@@ -247,6 +259,8 @@ OnFn(e) ==
                                                      !.reqT = IF FbReaders(i) = {} THEN @ ELSE @ \cup {t + 1}]
                               ELSE s1
                     IN Ok(s2)
+
+OnFn(e) == OnFnS(InferLib(S, e), e)
 
 ----------------------------------------------------------------------------
 (* wake-up requests made by user code through its scheduler                *)
@@ -268,14 +282,21 @@ OnReq(e) ==
 OnErr(e) ==
     LET c   == {k \in 1..Len(P(tid).capt) : P(tid).capt[k][1] = e.id}
         ths == IF c = {} THEN {} ELSE {P(tid).capt[CHOOSE k \in c : TRUE][2][j] : j \in 1..Len(P(tid).capt[CHOOSE k \in c : TRUE][2])}
-        hit == {x \in S.threw : x[1] \in ths /\ x[1] \notin S.errd}
+        \* a lifted library operator (fdiv) has no user code that could log its exception: it throws exactly when it is
+        \* evaluated (one of its inputs written in this cycle, both valid) with a zero divisor
+        lib == {<<i, 0>> : i \in {j \in ths : /\ Node(j).kind = "fdiv"
+                                              /\ S.lw[Node(j).ins[1]] # 0 /\ S.lw[Node(j).ins[2]] # 0
+                                              /\ S.lv[Node(j).ins[2]] = 0
+                                              /\ (S.lw[Node(j).ins[1]] = S.rnow \/ S.lw[Node(j).ins[2]] = S.rnow)}}
+        hit == {x \in S.threw \cup lib : x[1] \in ths /\ x[1] \notin S.errd}
+        Msg(x) == IF Node(x[1]).kind = "fdiv" THEN "floordiv_: division by zero" ELSE "neg " \o ToString(x[2])
         why == FirstFail(<<
           <<"C15.error_tick_outside_a_cycle", S.rnow # 0 /\ e.t = S.rnow>>,
           <<"C15.error_tick_without_exception_in_this_cycle", hit # {}>>,
           <<"C15.error_message_is_not_the_exception_message",
-                \E x \in hit : e.msg = "neg " \o ToString(x[2])>> >>, 1)
+                \E x \in hit : e.msg = Msg(x)>> >>, 1)
     IN IF why # "" THEN Fail(why)
-       ELSE Ok([S EXCEPT !.errd = @ \cup {(CHOOSE x \in hit : e.msg = "neg " \o ToString(x[2]))[1]}])
+       ELSE Ok([S EXCEPT !.errd = @ \cup {(CHOOSE x \in hit : e.msg = Msg(x))[1]}])
 
 OnRet(e) ==
     LET why == FirstFail(<<
